@@ -33,6 +33,7 @@ class RefState:
     write_order: List[int] = field(default_factory=list)
     undef: Set[str] = field(default_factory=set)
     halted: bool = False
+    notes: Set[str] = field(default_factory=set)      # input classes worth naming in a signature (never used by the judgement itself)
 
     # ---- memory ----
     def rd(self, a: int, formation: bool = False) -> int:
@@ -329,6 +330,8 @@ def execute(mn: str, ops: List[Operand], st: RefState, addr: int, length: int) -
         mask = (1 << bits) - 1
         va, vb = a.read() & mask, b.read() & mask
         c = g["C"]
+        if mn in ("ADC", "SBC") and c and vb == mask:
+            st.notes.add("source-all-ones-with-carry-in")
         if mn in ("ADD", "ADC"):
             t = va + vb + (c if mn == "ADC" else 0)
             g["C"] = 1 if t > mask else 0
@@ -401,6 +404,8 @@ def execute(mn: str, ops: List[Operand], st: RefState, addr: int, length: int) -
                 vb = st.rd(xb)
             if bcd and not (bcd_ok(va) and bcd_ok(vb)):
                 raise Skip("operands are not valid packed BCD")
+            if mn in ("ADCL", "SBCL") and c and vb == 0xFF:
+                st.notes.add("source-all-ones-with-carry-in")
             if mn == "ADCL":
                 t = va + vb + c
                 c, r = (1 if t > 0xFF else 0), t & 0xFF
